@@ -1,6 +1,8 @@
 import XmppModel.Model.Serve
 import XmppModel.Lemmas.Serve
 import XmppModel.Lemmas.ServeView
+import XmppModel.Lemmas.ServeNested
+import XmppModel.Generated.C08
 /-!
 # C08 — handlers see one element at a time; stream-level input never reaches them
 
@@ -10,6 +12,29 @@ writes, any return value).
 -/
 namespace XmppModel.Props.C08
 open XmppModel XmppModel.Xml XmppModel.Serve
+
+/-! ### tie to the source: what counts as a keep-alive -/
+
+/-- the set of characters the real serve path accepts between top-level elements (regenerated
+on every run by running a real session on every Unicode scalar value) is exactly XML white
+space — tab, line feed, carriage return, space — and that is the model's `isWsChar`: no
+Unicode-only white space (U+00A0, U+0085, U+3000 …), no zero-width character -/
+theorem C08_gen_whitespace :
+    Generated.C08.topWhitespace = some [9, 10, 13, 32] ∧
+    ∀ c : Char, isWsChar c = true ↔ c.toNat ∈ [9, 10, 13, 32] := by
+  refine ⟨by decide, ?_⟩
+  intro c
+  have h : ∀ d : Char, (c == d) = true ↔ c.toNat = d.toNat := by
+    intro d
+    rw [beq_iff_eq]
+    exact Char.toNat_inj.symm
+  simp only [isWsChar, Bool.or_eq_true, h, List.mem_cons, List.not_mem_nil, or_false]
+  have e1 : ' '.toNat = 32 := rfl
+  have e2 : '\t'.toNat = 9 := rfl
+  have e3 : '\r'.toNat = 13 := rfl
+  have e4 : '\n'.toNat = 10 := rfl
+  rw [e1, e2, e3, e4]
+  omega
 
 /-! ### stream-level input never reaches a handler -/
 
@@ -136,6 +161,135 @@ example : (Case.mk ⟨nsClient, "message"⟩ [attr "id" "m1"]
     { ops := [.read, .read], ret := .ok } []).Ok
     { ns := nsClient, localBare := "me@example.com", jidCanon := fun v => some v } :=
   ⟨by decide, by decide, by decide, rfl, by decide⟩
+
+/-! ### a stream-level construct nested inside an element; keep-alives between elements -/
+
+/-- the constructs whose verdict is an error at every depth: comments, processing
+instructions, directives, start tags in the stream namespace (stream error, restart, unknown)
+and end tags in the stream namespace other than `</stream:stream>` -/
+def nestedErr (t : Tok) (post : List Tok) : Option Err :=
+  match t with
+  | .chars _ => none
+  | _ => match (verdict 1 t post).2 with
+    | .err e => some e
+    | _ => none
+
+theorem nestedErr_all_depths (t : Tok) (post : List Tok) (e : Err) (h : nestedErr t post = some e) :
+    ∀ d, (verdict d t post).2 = Rd.err e := by
+  intro d
+  cases t with
+  | chars s => simp [nestedErr] at h
+  | start n as =>
+    simp only [nestedErr, verdict] at h ⊢
+    split at h <;> simp_all
+  | stop n =>
+    simp only [nestedErr, verdict] at h ⊢
+    split at h <;> simp_all
+  | comment s => simp_all [nestedErr, verdict]
+  | procInst a b => simp_all [nestedErr, verdict]
+  | directive s => simp_all [nestedErr, verdict]
+
+/-- **a nested stream-level construct ends the run and stays invisible**: an element whose
+ordinary content `pre` (which does not close it) is followed, at any nesting depth, by a
+construct `bad`: for **every** handler program returning nil, the handler's reads return the
+tokens of `pre` and from then on only errors — no token of the construct or of anything after
+it — and the session ends with the construct's error right after this invocation (what the
+handler wrote and the automatic reply, if one is due, are still written) -/
+theorem C08_nested_construct (cfg : Cfg) (rs : RS) (n : Name) (as : List Attr)
+    (pre : List Tok) (bad : Tok) (post : List Tok) (err : Err) (prog : Prog)
+    (hi : rs.inp = .start n as :: (pre ++ bad :: post)) (hn : (n.space != nsStream) = true)
+    (hpl : ∀ t ∈ pre, plainTok t = true) (hnc : noClose 0 pre = true)
+    (hbad : nestedErr bad post = some err)
+    (hret : prog.ret = .ok) (d : List Tok)
+    (hd : autoReply cfg n (blankFrom cfg n as)
+      (WS.init.encAll (getId (blankFrom cfg n as)) (writesOf prog.ops)).wrote = some d) :
+    handleInputStream cfg rs prog =
+      .stop (some { start := .start n (blankFrom cfg n as), view := viewBad pre (nreads prog.ops) })
+        (writesOf prog.ops ++ d) (.error err) :=
+  handleInputStream_nested cfg rs n as pre bad post err prog hi hn hpl hnc
+    (nestedErr_all_depths bad post err hbad) hret d hd
+
+/-- the reads of such an invocation: the first tokens of `pre`, then errors only -/
+theorem C08_nested_view_shape : ∀ (pre : List Tok) (k : Nat),
+    viewBad pre k = (pre.take k).map Obs.tok ++ List.replicate (k - pre.length) Obs.err := by
+  intro pre
+  induction pre with
+  | nil =>
+    intro k
+    induction k with
+    | zero => rfl
+    | succ k ih => simp [viewBad, ih, List.replicate_succ]
+  | cons t ts ih =>
+    intro k
+    cases k with
+    | zero => simp [viewBad]
+    | succ k => simp [viewBad, ih k]
+
+/-- **the whole session**: well-formed elements and white-space keep-alives in any
+interleaving, then an element with a nested construct: one invocation per element in order
+(keep-alives cause none), the last one for the dirty element, and `Serve` returns the
+construct's error -/
+theorem C08_session_with_nested (cfg : Cfg) (is : List Item) (hok : ∀ i ∈ is, i.Ok cfg)
+    (n : Name) (as : List Attr) (pre : List Tok) (bad : Tok) (post : List Tok) (err : Err) (prog : Prog)
+    (hn : (n.space != nsStream) = true) (hpl : ∀ t ∈ pre, plainTok t = true) (hnc : noClose 0 pre = true)
+    (hbad : nestedErr bad post = some err) (hret : prog.ret = .ok) (d : List Tok)
+    (hd : autoReply cfg n (blankFrom cfg n as)
+      (WS.init.encAll (getId (blankFrom cfg n as)) (writesOf prog.ops)).wrote = some d) :
+    serve cfg (is.flatMap Item.toks ++ .start n as :: (pre ++ bad :: post)) ((cases is).map (·.prog) ++ [prog])
+      = { invs := (cases is).map (Case.inv cfg) ++
+            [{ start := .start n (blankFrom cfg n as), view := viewBad pre (nreads prog.ops) }],
+          written := (cases is).flatMap Case.written ++ (writesOf prog.ops ++ d),
+          result := .error err } := by
+  have hlen : is.length ≤ (is.flatMap Item.toks).length := by
+    induction is with
+    | nil => simp
+    | cons i is ih =>
+      have := ih (fun x hx => hok x (by simp [hx]))
+      rw [List.flatMap_cons, List.length_append]
+      cases i <;> simp only [Item.toks, Case.toks, List.length_cons, List.length_nil] <;> omega
+  unfold serve
+  obtain ⟨f, hf⟩ : ∃ f, (is.flatMap Item.toks ++ Tok.start n as :: (pre ++ bad :: post)).length + 1
+      = (f + 1) + is.length :=
+    ⟨(is.flatMap Item.toks).length - is.length + (pre ++ bad :: post).length + 1, by
+      rw [List.length_append, List.length_cons]; omega⟩
+  rw [hf]
+  simp only [RS.init]
+  rw [serveF_items cfg [prog] is (f + 1) 0 _ hok]
+  have hstep := C08_nested_construct cfg
+    { inp := .start n as :: (pre ++ bad :: post), dIn := 0, dOut := 0, sticky := none }
+    n as pre bad post err prog rfl hn hpl hnc hbad hret d hd
+  simp [serveF, hstep]
+
+/-- **one invocation per element with keep-alives in between**: elements and white-space
+keep-alives in any interleaving, then the closing tag -/
+theorem C08_one_per_element_keepalives (cfg : Cfg) (is : List Item) (junk : List Tok)
+    (hok : ∀ i ∈ is, i.Ok cfg) :
+    serve cfg (is.flatMap Item.toks ++ .stop ⟨nsStream, "stream"⟩ :: junk) ((cases is).map (·.prog))
+      = { invs := (cases is).map (Case.inv cfg), written := (cases is).flatMap Case.written, result := .clean } := by
+  have hlen : is.length ≤ (is.flatMap Item.toks).length := by
+    induction is with
+    | nil => simp
+    | cons i is ih =>
+      have := ih (fun x hx => hok x (by simp [hx]))
+      rw [List.flatMap_cons, List.length_append]
+      cases i <;> simp only [Item.toks, Case.toks, List.length_cons, List.length_nil] <;> omega
+  unfold serve
+  obtain ⟨f, hf⟩ : ∃ f, (is.flatMap Item.toks ++ Tok.stop ⟨nsStream, "stream"⟩ :: junk).length + 1
+      = (f + 1) + is.length :=
+    ⟨(is.flatMap Item.toks).length - is.length + junk.length + 1, by
+      rw [List.length_append, List.length_cons]; omega⟩
+  rw [hf]
+  simp only [RS.init]
+  have := serveF_items cfg [] is (f + 1) 0 (.stop ⟨nsStream, "stream"⟩ :: junk) hok
+  simp only [List.append_nil] at this
+  rw [this]
+  simp [serveF, handleInputStream, RS.next, verdict, nsStream]
+
+example : nestedErr (.comment "c") [] = some .comment ∧ nestedErr (.procInst "pi" "x") [] = some .procInst ∧
+    nestedErr (.directive "DOCTYPE x") [] = some .directive ∧
+    nestedErr (.start ⟨nsStream, "features"⟩ []) [] = some .unknownElem ∧
+    nestedErr (.start ⟨nsStream, "stream"⟩ []) [] = some .restart ∧
+    noClose 0 [Tok.start ⟨"urn:a", "a"⟩ [], .chars "x"] = true := by decide
 
 /-- the peer's closing tag ends `Serve` without error and without any invocation, whatever
 follows it and whatever the handlers are -/
